@@ -7,8 +7,23 @@ import json
 from vlib import core
 from checks import parsegen, parse_common
 
-THEOREMS = ["C01_closing_tag_found", "C01_old_refuted"]
+THEOREMS = ["C01_roundtrip", "C01_reduce_sound", "C01_closing_tag_found", "C01_wf_witness", "C01_old_refuted"]
 PROPS = "theories/Props/C01.v"
+REGISTRY = {
+    "level": "proof",
+    "technique": "Coq proof (round trip parse∘print on the documented grammar, reduce soundness) + differential correspondence with ParsedValue::new/reduce",
+    "text": "C01_roundtrip: for every well-formed source AST (text, {{var[, formatter]}}, components nested to any depth incl. same-name "
+            "nesting, any whitespace padding) parse(print src) succeeds and reduce of it denotes exactly the source's pieces; "
+            "C01_reduce_sound for every value; C01_closing_tag_found for the tag scan. The model (Parser/Parse.v, Reduce.v) is tied to "
+            "/repo by running ParsedValue::new and reduce on generated strings and comparing trees; the Coq spec predicate is evaluated on "
+            "the implementation's reduced values against the source AST. Partial: the code generator and leptos rendering are not yet in "
+            "the model.",
+    "design_ref": "DESIGN.md §5 C01",
+    "note": "Trusted: Coq kernel + vm_compute; hand-written model tied by correspondence; syn::Ident and serde_json are oracles "
+            "(theorems quantify over them); Python generator; h_parser harness. No axioms.",
+    "engine": "coq",
+    "packages": [("h_parser",)],
+}
 
 
 def shrink_items(items, pred):
